@@ -17,6 +17,7 @@ type Profile struct {
 	SetDelay                                                           int // change a subscription's injected delivery delay
 	Update                                                             int // UpdateSubscription through the gRPC handler with a random mask
 	Churn                                                              int // create/delete subscriptions and topics
+	List                                                               int // first pages of the four listings, small page sizes
 	NoSeek, NoDL, OrderedOnly                                          bool
 	BigAdvance                                                         bool
 	// Frag: only operations of the fragment on which C05 is proved outright (no seek to a snapshot, of the
@@ -368,6 +369,19 @@ func (g *Gen) Next(now int64) Op {
 				req.DLMax = 2
 			}
 			return Op{K: "rpc", Rpc: &Rpc{Kind: "updateSub", Has: true, Paths: mask, Sub: req}}, true
+		}},
+		{p.List, func() (Op, bool) {
+			size := int32(1 + g.R.Intn(3))
+			switch g.R.Intn(4) {
+			case 0:
+				return Op{K: "rpc", Rpc: &Rpc{Kind: "listTopicSubs", Name: TopicName([]string{"t1", "t2", "d"}[g.R.Intn(3)]), Size: size}}, true
+			case 1:
+				return Op{K: "rpc", Rpc: &Rpc{Kind: "listSubs", Project: "projects/p", Size: size}}, true
+			case 2:
+				return Op{K: "rpc", Rpc: &Rpc{Kind: "listTopics", Project: "projects/p", Size: size}}, true
+			default:
+				return Op{K: "rpc", Rpc: &Rpc{Kind: "listSnaps", Project: "projects/p", Size: size}}, true
+			}
 		}},
 		{p.SetDelay, func() (Op, bool) {
 			s := g.liveSub()
